@@ -299,6 +299,7 @@ class PotentialElectrode(BaseElectrode):
         self.metadata = metadata
         current_electrodes.metadata = metadata
         self._current_electrodes = current_electrodes
+        current_electrodes._potential_electrodes = self  # pylint: disable=protected-access
 
         if isinstance(current_electrodes.ab_cell_id, ReferencedData) and isinstance(
             self.ab_cell_id, ReferencedData
@@ -381,6 +382,7 @@ class CurrentElectrode(BaseElectrode):
         self.metadata = metadata
         potential_electrodes.metadata = metadata
         self._potential_electrodes = potential_electrodes
+        potential_electrodes._current_electrodes = self  # pylint: disable=protected-access
 
         if isinstance(potential_electrodes.ab_cell_id, ReferencedData) and isinstance(
             self.ab_cell_id, ReferencedData
